@@ -92,7 +92,9 @@ CFG = dict(
           "while others complete, and histories from 8 goroutines with registrations between phases; every request reads RouteParam of "
           "twelve names {a,A,ab,abc,b,B,i,id,ID,Id,id2,zz}, RouteParamAny, Store.I, W.Status and GetID THREE times: at handler entry, at "
           "handler exit, and in the relay after the handler (before ServeHTTP resets the Store); plus one id-only history of 60,000 "
-          "(thorough: 400,000) sequential requests on one Mux whose i-th id must be prefix+base36(i) (checked in Go only); built with "
+          "(thorough: 400,000) sequential requests on one Mux in which no id may repeat (checked in Go only; the layout of ids is "
+          "not judged anywhere: ids are opaque strings that must be unique within the Mux and constant during the request; a layout "
+          "other than the model's prefix+base36(ticket) is counted as id_layout_differs / drift); built with "
           "-race. Whether a handler panic propagates out of ServeHTTP is counted, not judged. distinct_nontrivial = histories"),
     trusted_base=[HARNESS_TB, EXTRACT_TB,
                   "Lib/RouteSpec.v match_spec is what 'a fresh Mux with these routes' answers (proved for the model in C04; also checked "
